@@ -317,6 +317,11 @@ def segment_history_cases(run):
                   "smooth_height"],
           {"correct_force_slope": {"region": "approach",
                                    "strategy": "shift"}})
+    # the same steps with different contact-point methods for the tip offset
+    # (the split step itself takes no option: its result must not follow the
+    # method remembered from the request before)
+    PD = (PA[0], {"correct_tip_offset": {"method": "fit_line_polynomial"}})
+    PE = (PA[0], {"correct_tip_offset": {"method": "gradient_zero_crossing"}})
     makers = []
     for sd, lag in ((7, 6), (8, 11)):
         cols, k = c07.synthetic("hertz_para", sd, tilt=0.4, drift=0.3,
@@ -328,9 +333,16 @@ def segment_history_cases(run):
         ".jpk-force")
     if path.exists():
         makers.append(("recorded:tilted", lambda: IndentationGroup(path)[0]))
+    for fn, ci in (("fmt-jpk-fd_map1d_2016-11-07.jpk-force-map", 2),
+                   ("fmt-jpk-fd_map-data-reference-points.jpk-force-map", 1)):
+        pth = common.REPO / "tests" / "data" / fn
+        if pth.exists():
+            makers.append((f"recorded:{fn[11:20]}:{ci}",
+                           lambda pth=pth, ci=ci: IndentationGroup(pth)[ci]))
     moved = 0
     for cname, mk in makers:
-        for first, second in ((PA, PB), (PB, PA), (PA, PC), (PC, PA)):
+        for first, second in ((PA, PB), (PB, PA), (PA, PC), (PC, PA),
+                              (PD, PA), (PA, PD), (PD, PE), (PE, PD)):
             key = "segment-history:" + common.sha(
                 [cname, canon(first), canon(second)])[:16]
             run.case({"curve": cname, "first": canon(first),
